@@ -14,10 +14,11 @@ demo() {
     rm -f tests/demo_test.rs; return $rc
   fi
 }
-git diff HEAD --quiet -- src && { echo "no change in worktree"; exit 2; }
+git diff HEAD --quiet -- src py && { echo "no change in worktree"; exit 2; }
 suite=$(timeout 1500 cargo test --workspace --no-fail-fast --offline 2>&1 | grep -E "^test result" | tr '\n' ' ')
 demo; with=$?
-git stash -q -- src
+git diff HEAD -- src py > /tmp/confirm_seeded.$$.diff
+git apply -R /tmp/confirm_seeded.$$.diff
 demo; without=$?
-git stash pop -q
+git apply /tmp/confirm_seeded.$$.diff; rm -f /tmp/confirm_seeded.$$.diff
 echo "$(basename $WT): suite=[$suite] demo_with_change_rc=$with demo_without_change_rc=$without"
